@@ -17,6 +17,15 @@ BUILTIN_NAMES = {'len', 'range', 'abs', 'min', 'max', 'sum', 'float', 'int', 'bo
 def ext_value(dotted):
     if dotted in ('numpy.pi', 'math.pi', 'cmath.pi'):
         return PI
+    if dotted in ('sys.float_info.max', 'float_info.max'):
+        import sys as _sys
+        return Rat.const(_sys.float_info.max)
+    if dotted in ('sys.float_info.min', 'float_info.min'):
+        import sys as _sys
+        return Rat.const(_sys.float_info.min)
+    if dotted in ('sys.float_info.epsilon', 'float_info.epsilon'):
+        import sys as _sys
+        return Rat.const(_sys.float_info.epsilon)
     if dotted in ('numpy.inf', 'math.inf'):
         from .values import INF
         return INF
@@ -905,6 +914,16 @@ def call_ext(it, dotted, args, kwargs):
             raise Undecidable('isclose of nearby constants')
         sgn, key, text = _canon_diff(d)
         return _SignTest('close:' + key, '0', 'isclose(%s, 0)' % text, '0+')
+    if short == 'allclose' and mod == 'numpy':
+        a, b = args[0], args[1]
+        fa = [x for r in a.d for x in r] if isinstance(a, Arr) and a.ndim == 2 else (a.d if isinstance(a, Arr) else [a])
+        fb = [x for r in b.d for x in r] if isinstance(b, Arr) and b.ndim == 2 else (b.d if isinstance(b, Arr) else [b])
+        if len(fa) != len(fb):
+            raise Undecidable('allclose with broadcasting')
+        for x, y in zip(fa, fb):
+            if not it.truth(call_ext(it, 'numpy.isclose', [x, y], kwargs)):
+                return False
+        return True
     if short == 'clip':
         x = _num(args[0])
         lo, hi = _num(args[1]), _num(args[2])
@@ -966,6 +985,20 @@ def call_ext(it, dotted, args, kwargs):
     if short == 'warn':
         it.events.append(('warn',))
         return None
+    if dotted in ('copy.copy', 'copy.deepcopy'):
+        v = args[0]
+        if isinstance(v, Obj):
+            o = Obj(v.cls)
+            o.attrs.update(v.attrs if short == 'copy' else {k: (list(x) if isinstance(x, list) else dict(x) if isinstance(x, dict) else x)
+                                                             for k, x in v.attrs.items()})
+            return o
+        if isinstance(v, list):
+            return list(v)
+        if isinstance(v, dict):
+            return dict(v)
+        if isinstance(v, (tuple, str, int, Rat)) or v is None:
+            return v
+        raise Undecidable('copy of %r' % (v,))
     if short == 'namedtuple':
         from .values import PyFunc
         fields = list(args[1]) if not isinstance(args[1], str) else args[1].replace(',', ' ').split()
